@@ -38,6 +38,7 @@ type smtPrinter struct {
 	extra  map[string]string // extra declarations (clo symbols, address functions)
 	exOrd  []string
 	seenBx map[string]bool
+	used   map[string]bool
 }
 
 func (p *smtPrinter) count(t *Term) {
@@ -94,14 +95,17 @@ func (p *smtPrinter) raw(t *Term) string {
 	case "str":
 		return fmt.Sprintf("strlit!%d", t.Idx)
 	case "const", "bvar":
+		p.used[t.Name] = true
 		return sym(t.Name)
 	case "app":
+		p.used[t.Name] = true
 		if len(t.Args) == 0 {
 			return sym(t.Name)
 		}
 		return "(" + sym(t.Name) + args() + ")"
 	case "box":
 		p.seenBx[t.Name] = true
+		p.used[t.Name] = true
 		return "(" + sym(t.Name) + args() + ")"
 	case "ctor":
 		if len(t.Args) == 0 {
@@ -166,7 +170,7 @@ func (p *smtPrinter) raw(t *Term) string {
 
 // Query renders the check: assumptions ∧ ¬(goal) with named path flags.
 func (c *Ctx) Query(assumptions []*Term, negGoals []*Term, labels []string) string {
-	p := &smtPrinter{c: c, refs: map[*Term]int{}, names: map[*Term]string{}, extra: map[string]string{}, seenBx: map[string]bool{}}
+	p := &smtPrinter{c: c, refs: map[*Term]int{}, names: map[*Term]string{}, extra: map[string]string{}, seenBx: map[string]bool{}, used: map[string]bool{"zero_Iface": true}}
 	for _, a := range assumptions {
 		p.count(a)
 	}
@@ -186,7 +190,7 @@ func (c *Ctx) Query(assumptions []*Term, negGoals []*Term, labels []string) stri
 		if i < len(labels) {
 			lbl = " ; " + strings.ReplaceAll(labels[i], "\n", " ")
 		}
-		asserts = append(asserts, fmt.Sprintf("(declare-fun %s () Bool)%s\n(assert (= %s %s))", f, lbl, f, p.term(g)))
+		asserts = append(asserts, fmt.Sprintf("(declare-fun %s () Bool)%s\n(assert (=> %s %s))", f, lbl, f, p.term(g)))
 	}
 	if len(flags) == 1 {
 		asserts = append(asserts, "(assert "+flags[0]+")")
@@ -224,7 +228,7 @@ func (c *Ctx) Query(assumptions []*Term, negGoals []*Term, labels []string) stri
 	hd.WriteString("(define-fun go_div ((a Int) (b Int)) Int (ite (>= a 0) (ite (> b 0) (div a b) (- (div a (- b)))) (ite (> b 0) (- (div (- a) b)) (div (- a) (- b)))))\n")
 	hd.WriteString("(define-fun go_rem ((a Int) (b Int)) Int (- a (* b (go_div a b))))\n")
 	for _, d := range c.declList {
-		if d.Name == "go_div" || d.Name == "go_rem" {
+		if d.Name == "go_div" || d.Name == "go_rem" || !p.used[d.Name] {
 			continue
 		}
 		var ps []string
@@ -266,8 +270,11 @@ func (c *Ctx) Query(assumptions []*Term, negGoals []*Term, labels []string) stri
 		ps := symSort(d.Params[0])
 		un := "un" + name
 		is := "is_" + name
-		_, usedUn := c.decls[un]
-		_, usedIs := c.decls[is]
+		usedUn := p.used[un]
+		usedIs := p.used[is]
+		if (usedUn || usedIs) && !p.used[name] {
+			fmt.Fprintf(&hd, "(declare-fun %s (%s) Iface)\n", sym(name), ps)
+		}
 		if !usedUn && !usedIs {
 			// injectivity and disjointness are handled by the term constructors
 			continue
@@ -294,7 +301,11 @@ func (c *Ctx) Query(assumptions []*Term, negGoals []*Term, labels []string) stri
 	for _, a := range asserts {
 		body.WriteString(a + "\n")
 	}
-	body.WriteString("(check-sat)\n(get-model)\n")
+	body.WriteString("(check-sat)\n")
+	if len(flags) > 0 {
+		body.WriteString("(get-value (" + strings.Join(flags, " ") + "))\n")
+	}
+	body.WriteString("(get-model)\n")
 	return body.String()
 }
 
